@@ -379,6 +379,16 @@ impl<'input> Tokenizer<'input> {
             .map(|b| (self.chars.location, b))
     }
 
+    /// Restores the character whose first byte, `first`, were just returned by `bump` and consumes
+    /// the rest of its bytes so that lexing never resumes in the middle of a character
+    fn bump_char_rest(&mut self, first: u8) -> char {
+        let ch = self.chars.chars.as_str_suffix().restore_char(&[first]);
+        for _ in 1..ch.len_utf8() {
+            self.bump();
+        }
+        ch
+    }
+
     fn skip_to_end(&mut self) {
         while let Some(_) = self.bump() {}
     }
@@ -516,22 +526,22 @@ impl<'input> Tokenizer<'input> {
         pos::spanned2(start, end, token)
     }
 
-    fn escape_code(&mut self, start: Location) -> Result<u8, SpError> {
+    fn escape_code(&mut self, start: Location) -> Result<char, SpError> {
         match self.bump() {
-            Some((_, b'\'')) => Ok(b'\''),
-            Some((_, b'"')) => Ok(b'"'),
-            Some((_, b'\\')) => Ok(b'\\'),
-            Some((_, b'/')) => Ok(b'/'),
-            Some((_, b'n')) => Ok(b'\n'),
-            Some((_, b'r')) => Ok(b'\r'),
-            Some((_, b't')) => Ok(b'\t'),
+            Some((_, b'\'')) => Ok('\''),
+            Some((_, b'"')) => Ok('"'),
+            Some((_, b'\\')) => Ok('\\'),
+            Some((_, b'/')) => Ok('/'),
+            Some((_, b'n')) => Ok('\n'),
+            Some((_, b'r')) => Ok('\r'),
+            Some((_, b't')) => Ok('\t'),
             // TODO: Unicode escape codes
             Some((end, b)) => {
-                let ch = self.chars.chars.as_str_suffix().restore_char(&[b]);
-                self.recover(start, end, UnexpectedEscapeCode(ch), b)
+                let ch = self.bump_char_rest(b);
+                self.recover(start, end, UnexpectedEscapeCode(ch), ch)
                     .map(|s| s.value)
             }
-            None => self.eof_recover(b'\0').map(|s| s.value),
+            None => self.eof_recover('\0').map(|s| s.value),
         }
     }
 
@@ -631,21 +641,18 @@ impl<'input> Tokenizer<'input> {
             Some((end, b'\'')) => {
                 return self.recover(start, end, EmptyCharLiteral, Token::CharLiteral('\0'));
             }
-            Some((_, ch)) => ch,
+            Some((_, b)) => self.bump_char_rest(b),
             None => return self.eof_recover(Token::CharLiteral('\0')),
         };
 
         match self.bump() {
-            Some((_, b'\'')) => {
-                let ch = self.chars.chars.as_str_suffix().restore_char(&[ch]);
-                Ok(pos::spanned2(
-                    start,
-                    self.next_loc(),
-                    Token::CharLiteral(ch),
-                ))
-            }
-            Some((end, _)) => {
-                let ch = self.chars.chars.as_str_suffix().restore_char(&[ch]);
+            Some((_, b'\'')) => Ok(pos::spanned2(
+                start,
+                self.next_loc(),
+                Token::CharLiteral(ch),
+            )),
+            Some((end, b)) => {
+                self.bump_char_rest(b);
                 self.recover(start, end, UnterminatedCharLiteral, Token::CharLiteral(ch))
             } // UnexpectedEscapeCode?
             None => self.eof_recover(Token::CharLiteral('\0')),
@@ -835,7 +842,7 @@ impl<'input> Iterator for Tokenizer<'input> {
                 ch if (ch as char).is_whitespace() => continue, // TODO Unicode whitespace
 
                 ch => {
-                    let ch = self.chars.chars.as_str_suffix().restore_char(&[ch]);
+                    let ch = self.bump_char_rest(ch);
                     let end = self.next_loc();
                     if let Err(err) = self.recover(start, end, UnexpectedChar(ch), ()) {
                         return Some(Err(err));
